@@ -2,6 +2,7 @@ import Pi2.Codec
 import Pi2.Sound.Machine
 import Pi2.Gen.Schemas
 import Pi2.RustTie
+import Pi2.RustExecTie
 /-!
 # C01 — checker soundness
 
@@ -141,5 +142,17 @@ theorem rust_substitution_tied :
     (∀ p x plug, Gen.Rust.apply_esubst p x plug = Pat.applyESubst x plug p) ∧
     (∀ p x plug, Gen.Rust.apply_ssubst p x plug = Pat.applySSubst x plug p) :=
   ⟨RustTie.substTranslated, RustTie.apply_esubst_eq, RustTie.apply_ssubst_eq⟩
+
+
+/-- **The theorem for the checker as written**: `verify` of `rust/src/lib.rs` — translated statement by statement on every
+run (`Pi2/Gen/RustExec.lean`: every arm of `execute_instructions`, the stack helpers, `well_formed`, the three phases
+and the final `assert!`; a panic is `none`) — accepts three byte strings only if the model does (`RustExecTie`), and
+then every claim it discharged is valid in every model of the published axioms. -/
+theorem rust_verify_text_sound (g c p : List Nat) (r0 : RustExec.RSt) (h : (Gen.Rust.verify g c p r0).isSome = true) :
+    Gen.Rust.execTranslated = true ∧
+    ∃ axs cls, verifyBytes g c p = some (axs, cls) ∧
+      ∀ 𝔐 : Model, (∀ a ∈ axs, ValidM 𝔐 a) → ∀ q ∈ cls, ValidM 𝔐 q := by
+  obtain ⟨axs, cls, hv⟩ := (RustExecTie.verify_accepts_iff g c p r0).1 h
+  exact ⟨RustExecTie.translated, axs, cls, hv, fun 𝔐 hΓ => verifyBytes_sound g c p axs cls hv 𝔐 hΓ⟩
 
 end C01
